@@ -314,6 +314,8 @@ class Interp:
             env.loop_ord = 0
             env.func = f
             if self._is_generator(node):
+                if self._yield_value_used(node):
+                    raise Unsupported(f"generator function {f.name} (its yields receive values)")
                 # a generator function whose values are only iterated over (no send / throw, nothing observable interleaved with its
                 # consumer) is run to its end and stands for the list of what it yields; `x = yield v` (a value sent in) is not supported
                 env.yielded = []
@@ -332,6 +334,22 @@ class Interp:
             self.depth -= 1
 
     _gen_cache = {}
+
+    def _yield_value_used(self, node):
+        """True when some yield / yield from of the function (not of a nested one) is used for its value (x = yield v, return (yield v),
+        r = yield from it): what is sent into such a generator matters, and the eager evaluation does not model it."""
+        plain = set()
+        todo = list(ast.iter_child_nodes(node))
+        found = []
+        while todo:
+            n = todo.pop()
+            if isinstance(n, ast.Expr) and isinstance(n.value, (ast.Yield, ast.YieldFrom)):
+                plain.add(id(n.value))
+            if isinstance(n, (ast.Yield, ast.YieldFrom)):
+                found.append(n)
+            if not isinstance(n, (ast.FunctionDef, ast.AsyncFunctionDef, ast.Lambda, ast.ClassDef)):
+                todo.extend(ast.iter_child_nodes(n))
+        return any(id(n) not in plain for n in found)
 
     def _is_generator(self, node):
         k = id(node)
